@@ -303,6 +303,49 @@ def generate(rng, tier, index):
         op, ver = gen_attr_op(r, ctx, lab, li, None)
         steps.append({'actor': actor, 'ver': list(ver), 'items': [op],
                       'attr': True})
+    if index % 8 == 7:
+        # the attribute table, complete: every attribute name the request
+        # language can encode, with one of Set / Modify / Delete in the 1.x
+        # or 2.0 form, on one of the objects
+        from sim import reqs
+        from sim.props.c13 import SIMPLE_KINDS
+        lab, li, cop = r.choice(labels)
+        for n in sorted(x for x, (tg, kd) in reqs.ATTRS.items()
+                        if kd in SIMPLE_KINDS):
+            a = gen.A(n, SIMPLE_KINDS[reqs.ATTRS[n][1]])
+            if n in PROTECTED_NAMES:
+                kind, v = PROTECTED_NAMES[n]
+                a = gen.A(n, v, None, kind)
+            elif n in MULTI:
+                a = gen.A(n, gen_value(r, ctx, n, li))
+            k = r.choice(['Set', 'Modify', 'Modify', 'Delete', 'Delete'])
+            v2 = k == 'Set' or r.random() < 0.4
+            ver = (2, 0) if v2 else r.choice([(1, 0), (1, 2), (1, 4)])
+            if k == 'Set':
+                op = {'op': 'SetAttribute', 'uid': '@' + lab, 'new': a}
+            elif k == 'Modify':
+                if v2:
+                    op = {'op': 'ModifyAttribute', 'uid': '@' + lab,
+                          'new': a}
+                    if r.random() < 0.5:
+                        op['cur'] = dict(a)
+                else:
+                    if r.random() < 0.5:
+                        a['i'] = 0
+                    op = {'op': 'ModifyAttribute', 'uid': '@' + lab,
+                          'attr': a}
+            else:
+                if v2:
+                    op = {'op': 'DeleteAttribute', 'uid': '@' + lab}
+                    if r.random() < 0.5:
+                        op['cur'] = a
+                    else:
+                        op['ref'] = n
+                else:
+                    op = {'op': 'DeleteAttribute', 'uid': '@' + lab,
+                          'name': n, 'index': r.choice([None, 0])}
+            steps.append({'actor': 0, 'ver': list(ver), 'items': [op],
+                          'attr': True})
     return {'actors': actors, 'seed': r.randrange(1 << 30), 'steps': steps}
 
 
